@@ -467,14 +467,28 @@ def _(E, a, o):
     return E["coords"].sdss2eq(a[0], a[1])
 
 
+def _shift_arg(E, o):
+    """the shift option as the caller holds it: a number, or a one-element array (a value kept in an array is the
+    caller's memory as well) -- sometimes beyond 360"""
+    sh = o.get("shift")
+    if sh is None or not o.get("shift_arr"):
+        return sh
+    val = float(sh) + (360.0 if o.get("select", 1) % 2 else 0.0)
+    if val < 0 and o.get("select", 1) % 3 == 0:
+        val = 400.0
+    arg, g = present.make(np.array([val]), {"kind": o.get("idpres", "plain"), "stride": 2, "off": 1})
+    E["extra"].append(("shift", g))
+    return arg
+
+
 @site("shiftlon", "coords", ["lon"])
 def _(E, a, o):
-    return E["coords"].shiftlon(a[0], shift=o.get("shift"), wrap=o.get("wrap", True))
+    return E["coords"].shiftlon(a[0], shift=_shift_arg(E, o), wrap=o.get("wrap", True))
 
 
 @site("shiftra", "coords", ["lon"])
 def _(E, a, o):
-    return E["coords"].shiftra(a[0], shift=o.get("shift"), wrap=o.get("wrap", True))
+    return E["coords"].shiftra(a[0], shift=_shift_arg(E, o), wrap=o.get("wrap", True))
 
 
 @site("radec2aitoff", "coords", ["lon", "lat"])
@@ -616,6 +630,7 @@ def _opts(r, name):
     o["select"] = r.randrange(1, 7)
     o["shift"] = pick(r, [None, 90.0, 180.0, -45.0])
     o["wrap"] = chance(r, 0.6)
+    o["shift_arr"] = chance(r, 0.4)
     o["flat"] = chance(r, 0.6)
     o["om"] = pick(r, [0.25, 0.3, 1.0])
     o["ok"] = pick(r, [-0.1, 0.05])
